@@ -29,7 +29,9 @@ PROP = {'gen': ['sixel'],
                   '(Gen/TabSixel.v) and validated against SixelImageHandler::draw for all 256 values',
                   'hand-written models Image/Sixel.v, Image/SixelDraw.v (encoder) and the C13 models (quantisation), tied to the code by '
                   'the correspondence run; the reference interpreter is written from the DEC sixel description',
-                  'rasterize::RGBA::blend_over (alpha compositing) and Surface::hash (cache key) are oracles',
+                  'rasterize::RGBA::blend_over (alpha compositing) supplies the composited colour of each transparent pixel; every such value is '
+                  'checked against the exact linear-light mix of Image/SrgbSpec.v (IEC 61966-2-1 table, independent of the crates) within '
+                  '+-1 level; Surface::hash (cache key) is an oracle',
                   HARNESS],
  'assumptions': ['the 64-bit FNV content hash used as cache key does not collide between different images drawn on one handler',
                  'the encoded-image cache stays below its 128 MB eviction threshold',
